@@ -5,6 +5,8 @@ from concurrent.futures import ThreadPoolExecutor
 
 from vlib import *
 from gencommon import *
+import os as _os
+OP_LIMIT_ENV = dict(_os.environ, VERIF_OP_LIMIT="10")   # per-operation time limit of the extracted model (ocaml/conv.ml)
 
 PROPS = "Props/C02"
 FAMILY = "tl1"
@@ -101,7 +103,7 @@ def run(ctx, props=PROPS, random_only=False, nrand=None, gen_cls=None, leg=None)
             tid, name, boxed = f[2], f[3], f[4]
             b = b"" if o[3:] == "-" else bytes.fromhex(o[3:])
             ops.append((f"rw1 {san} {tid} {name} {boxed} {o[3:]}", "valid", int(tid)))
-            for _ in range(nmut):
+            for _ in range(nmut if u.san or not quick else max(1, nmut // 4)):   # without the sanity check hostile counts cost seconds each (allocation by design)
                 m = mutate_bytes(rng, b, tags, gentle=not u.san)
                 if rng.random() < 0.25:
                     m = mutate_bytes(rng, m, tags, gentle=not u.san)
@@ -117,7 +119,7 @@ def run(ctx, props=PROPS, random_only=False, nrand=None, gen_cls=None, leg=None)
         lines = [o[0] for o in ops]
         # the model builds the element list of a hostile count even when the elements occupy no bytes (`(vector (tuple Bool 0))`,
         # empty bare structs): cap its memory; without --checkLengthSanity such inputs are unbounded by design and are not compared
-        mo = run_lines_resilient(ref, [str(u.ir_path)], lines, timeout=900, mem_gb=2, max_restarts=40)
+        mo = run_lines_resilient(ref, [str(u.ir_path)], lines, timeout=900, mem_gb=2, max_restarts=40, env=OP_LIMIT_ENV)
         rc1, err1 = 0, ""
         go = run_lines_resilient(u.gen.exe, [], lines, timeout=300, mem_gb=3, max_restarts=200)
         if rc1 != 0 or len(mo) != len(lines) or len(go) != len(lines):
